@@ -183,7 +183,7 @@ func (e *tenv) run(kind string) (bool, string) {
 			e.obs = append(e.obs, o)
 		}
 		return okw, toutcome(c)
-	case "obsCancel":
+	case "obsCancel", "obsCancelRefused", "obsCancelGiveUp":
 		if len(e.obs) == 0 {
 			return false, "noobservation"
 		}
@@ -197,7 +197,14 @@ func (e *tenv) run(kind string) (bool, string) {
 		if !ok {
 			return false, "norequest"
 		}
-		e.feed(codes.Content, q.Token, nil, []byte("v"))
+		switch kind {
+		case "obsCancelRefused":
+			e.feed(codes.NotFound, q.Token, nil, nil)
+		case "obsCancelGiveUp":
+			cancel()
+		default:
+			e.feed(codes.Content, q.Token, nil, []byte("v"))
+		}
 		return c.wait(), toutcome(c)
 	case "pingOK", "pingCancel":
 		c := e.async(func() (*pool.Message, error) { return nil, cc.Ping(ctx) })
